@@ -28,7 +28,7 @@ ASSUMPTIONS = ['the records "that had been written" are what sedfitter\'s own re
                'package authoring and convolution are only a means to obtain realistic records here; a scenario whose '
                'setup stage fails is discarded and counted, not failed']
 PROBES = ['reader_raised', 'exact_prefix_nonempty', 'exact_prefix_empty', 'crash_inside_metadata', 'crash_on_boundary',
-          'live_crash', 'live_enospc', 'observer_reads', 'filter_output_streams', 'with_model_fluxes', 'synthetic_big_record']
+          'live_crash', 'live_enospc', 'observer_reads', 'filter_output_streams', 'with_model_fluxes', 'synthetic_big_record', 'path_written_before', 'cut_in_place']
 
 
 def budgets(tier):
@@ -51,7 +51,11 @@ def _generate_synthetic(rng, tier):
         off = {'mode': 'sample', 'n': 3000, 'seed': rng.randrange(1 << 30), 'all_below': 20000}
     else:
         off = {'mode': 'sample', 'n': 250, 'seed': rng.randrange(1 << 30), 'all_below': 1200}
+    # earlier generations of the same path (a script that re-writes its output), and the cut applied to the path itself
+    earlier = [[{'n': rng.choice([0, 1, 3, 40]), 'nw': rng.randint(1, 6), 'fluxes': rng.random() < 0.5, 'seed': rng.randrange(1 << 30)}
+                for _ in range(rng.randint(1, 4))] for _ in range(rng.choice([0, 0, 1, 2]))]
     return {'family': 'synthetic', 'records': recs, 'offsets': off, 'clock': {'kind': 'steady'}, 'listing_seed': 0,
+            'earlier': earlier, 'in_place': rng.random() < 0.6,
             'live': [{'kind': rng.choice(['crash', 'enospc']), 'frac': round(rng.random(), 4)} for _ in range(rng.choice([0, 1, 2]))]}
 
 
@@ -184,7 +188,7 @@ def _run_writer(sc, sim, W, d, lines, outp):
     return res, files
 
 
-def _synthetic_infos(sc):
+def _synthetic_infos(sc, prefix='syn'):
     import numpy as np
     from astropy import units as u
     from sedfitter.extinction import Extinction
@@ -198,7 +202,7 @@ def _synthetic_infos(sc):
         g = np.random.default_rng(r['seed'])
         n, nw = r['n'], r['nw']
         s = Source()
-        s.name = 'syn%d' % k
+        s.name = '%s%d' % (prefix, k)
         s.x = float(k)
         s.y = -float(k)
         s.valid = [1] * nw
@@ -224,6 +228,13 @@ def _synthetic_infos(sc):
 def _execute_synthetic(sc, sim, out):
     infos = _synthetic_infos(sc)
     outp = sim.path('syn.fitinfo')
+    for gen in sc.get('earlier') or []:
+        # the path has a past: other records were written to it, and read, by the same process
+        rg_ = pipe.call(pipe.write_fit_file, outp, _synthetic_infos(dict(sc, records=gen), prefix='old'))
+        if rg_[0] == 'ok':
+            pipe.call(pipe.read_fit_sed, outp)
+            out.probe('path_written_before')
+            sim.fired('earlier_generation')
     sim.reset_ordinals()
     n0 = len(sim.events)
     r = pipe.call(pipe.write_fit_file, outp, infos)
@@ -248,7 +259,9 @@ def _execute_synthetic(sc, sim, out):
         out.violate('wrong-record', 'the complete file does not read back the %d records that were written' % len(W))
         return
     out.probe('synthetic_big_record', sum(1 for r_ in sc['records'] if r_['n'] >= 1000))
-    tp = sim.path('trunc')
+    tp = outp if sc.get('in_place') else sim.path('trunc')       # the file itself is cut short, or a copy of it
+    if sc.get('in_place'):
+        out.probe('cut_in_place')
     outcomes = set()
     offs = _offsets(sc['offsets'], len(B), cum)
     out.probe('offsets_judged', len(offs))
@@ -256,7 +269,7 @@ def _execute_synthetic(sc, sim, out):
         with env.real_open(tp, 'wb') as f:
             f.write(B[:k])
         rr = pipe.call(pipe.read_fit_sed, tp)
-        outcomes.add(_judge(out, rr, G, None, 'file syn.fitinfo cut at byte %d of %d' % (k, len(B))))
+        outcomes.add(_judge(out, rr, G, None, 'file syn.fitinfo cut at byte %d of %d%s' % (k, len(B), ' (in place)' if sc.get('in_place') else '')))
         if out.violations:
             break
     for lf in sc.get('live', []):
@@ -422,6 +435,12 @@ def lowerings(sc, viol=None):
             m = re.search(r'cut at byte (\d+)', viol['message'])
             if m:
                 yield dict(sc, offsets={'mode': 'list', 'list': [int(m.group(1))]}, live=[])
+        if sc.get('earlier'):
+            yield dict(sc, earlier=[])
+            if len(sc['earlier']) > 1:
+                yield dict(sc, earlier=sc['earlier'][:1])
+        if sc.get('in_place'):
+            yield dict(sc, in_place=False)
         for i in range(len(sc['records'])):
             if len(sc['records']) > 1:
                 yield dict(sc, records=sc['records'][:i] + sc['records'][i + 1:])
